@@ -31,9 +31,7 @@ def ref_tokenize(ex, chars):
         pos.append(p + w if isinstance(p, int) and isinstance(w, int) else z3.simplify((z3.BitVecVal(p, 64) if isinstance(p, int) else p) + (z3.BitVecVal(w, 64) if isinstance(w, int) else w)))
     def digits_value(ds):
         if len(ds) > 18: raise LexError(None, 'number too long')      # caller sets pos
-        acc = z3.BitVecVal(0, 64)
-        for d in ds: acc = acc * 10 + (z3.BitVecVal(ord(d) - 48, 64) if isinstance(d, str) else z3.ZeroExt(32, d.bv) - 48)
-        return z3.simplify(acc)
+        return JM.decimal_value(ex, ds, 64)
     def scan_delimited(start, q):
         """content between start+1 and the closing unescaped delimiter q; a backslash makes the next character part of the content"""
         j = start + 1; buf = []
